@@ -251,6 +251,14 @@ def real_dump(reader, fails, tag):
             vec = dict((t, list(p)) for t, p in reader.vector_as("positions", dn, "body"))
             if vec != post:
                 fails.append((tag + "C10-vector", "vector of %s = %r but transposed postings = %r" % (key, vec, post)))
+            # the vector matcher itself (reader.vector) must be the same document's
+            vm = reader.vector(dn, "body")
+            vids = []
+            while vm.is_active():
+                vids.append(vm.id().decode("utf8") if isinstance(vm.id(), bytes) else vm.id())
+                vm.next()
+            if sorted(vids) != sorted(post):
+                fails.append((tag + "C10-vector-matcher", "vector() of %s lists %r but the document's terms are %r" % (key, sorted(vids), sorted(post))))
             vw = dict((t, w_) for t, w_ in reader.vector_as("weight", dn, "body"))
             # the vector carries frequency x field boost (the per-document _<field>_boost only scales postings)
             if any(abs(vw.get(t, -1) - 2.0 * len(post[t])) > 1e-6 for t in post):
